@@ -181,6 +181,21 @@ def step (s : DState) (line : String) : DState × Option String :=
       ({ s with w := w }, some (outStr "clean" o))
     | _, _ => bad s line
   | ["skipline"] => (s, some "skipline")
+  | ["path", c, sa, name] =>
+    match c.toNat?.bind (lookupCfg s), unhex name with
+    | some cfg, some nm =>
+      match snapshotPath cfg s.caller nm (sa = "1") with
+      | (p, some rel) => (s, some ("path " ++ hexOf p ++ " " ++ hexOf rel))
+      | (_, none) => (s, some "path unsupported:rel")
+    | _, _ => bad s line
+  | ["cfgrel", n, dir, file, ext] =>
+    match n.toNat?, unhex file, unhex ext with
+    | some n, some f, some e =>
+      let d := if dir = "-" then some Generated.defaultSnapsDir else unhex dir
+      match d with
+      | some d => ({ s with w := { s.w with cfgs := setCfg s.w.cfgs n { filename := f, snapsDir := d, extension := e, update := none } } }, some "cfgrel ok")
+      | none => bad s line
+    | _, _, _ => bad s line
   | ["pdiff", e, r, name, line] =>
     match unhex e, unhex r, unhex name, line.toNat? with
     | some e, some r, some name, some line =>
